@@ -642,6 +642,15 @@ func (c *Conn) readRecordOrCCS(expectChangeCipherSpec bool) error {
 			return c.in.setErrorLocked(c.newRecordHeaderError(c.remoteAddr, fmt.Sprintf("record length %d exceeds datagram", n)))
 		}
 
+		// 旧 epoch 的记录（对端重传的、迟到或重复的握手报文）无法用当前密钥验证，必须在解密之前处理，
+		// 否则会被当作 MAC 错误而中断连接。驻留期内对端重传其最后一个 flight 说明它没有收到我们的
+		// 最后一个 flight，重发之 (RFC 6347 §4.2.4)；其余一律静默丢弃。
+		if epoch < c.readEpoch {
+			c.dwellRetransmit(handshakeComplete, typ)
+			c.rawInputBuf = c.rawInputBuf[recordHeaderLen+n:]
+			continue
+		}
+
 		// 将 epoch + seq_num 写入 in.seq（供 decrypt 中的 MAC/AAD 使用）
 		c.in.seq[0] = hdr[3]
 		c.in.seq[1] = hdr[4]
@@ -792,6 +801,25 @@ func (c *Conn) readRecordOrCCS(expectChangeCipherSpec bool) error {
 			return nil
 		}
 	}
+}
+
+// dwellRetransmit 在 2*MSL 驻留期内收到对端旧 epoch 的 CCS/握手记录（对端在重传其最后一个 flight）时，
+// 重发本端最后一个 flight；驻留期已过则清理驻留状态。
+func (c *Conn) dwellRetransmit(handshakeComplete bool, typ recordType) {
+	if !handshakeComplete || c.dwellDeadline.IsZero() {
+		return
+	}
+	if typ != recordTypeChangeCipherSpec && typ != recordTypeHandshake {
+		return
+	}
+	if time.Now().Before(c.dwellDeadline) {
+		if len(c.flightRetransmit) > 0 {
+			c.pconn.WriteTo(c.flightRetransmit, c.remoteAddr)
+		}
+		return
+	}
+	c.dwellDeadline = time.Time{}
+	c.flightRetransmit = nil
 }
 
 // retryReadRecord 递归进入 readRecordOrCCS 以丢弃非推进记录。
@@ -1418,6 +1446,12 @@ func (c *Conn) ReadFrom(p []byte) (n int, addr net.Addr, err error) {
 		recLen := int(hdr[11])<<8 | int(hdr[12])
 
 		if recordHeaderLen+recLen > len(c.rawInputBuf) {
+			continue
+		}
+
+		// 旧 epoch 的记录在解密之前处理（见 readRecordOrCCS）
+		if epoch < c.readEpoch {
+			c.dwellRetransmit(true, recordType(hdr[0]))
 			continue
 		}
 
